@@ -113,18 +113,36 @@ def self_call(name: str) -> Callable[[ast.Call], bool]:
     return lambda c: is_method_call(c, name) and path_of(recv_of(c)) == "self"
 
 
+def lookup_aliases(func_node, mvar: str):
+    """{local: `self.modules.get(<mvar>.conn)`} for locals assigned exactly once from that lookup"""
+    lookup = f"self.modules.get({mvar}.conn)"
+    defs = {}
+    for n in walk_local(func_node):
+        if isinstance(n, ast.Assign) and len(n.targets) == 1 and isinstance(n.targets[0], ast.Name):
+            defs.setdefault(n.targets[0].id, []).append(n.value)
+    return {k: v[0] for k, v in defs.items() if len(v) == 1 and norm(v[0]) == lookup}
+
+
 def not_live_edges(g, mvar: str):
     """Edges of a CFG taken only when module `mvar` is no longer in the manager's table
     (idempotence / liveness guards such as `self.modules.get(m.conn) is not m`, `m.conn not in self.modules`)."""
     out = set()
-    lives = [guards.parse(f"self.modules.get({mvar}.conn) is {mvar}"), guards.parse(f"{mvar}.conn in self.modules")]
+    lookup = f"self.modules.get({mvar}.conn)"
+    lives = [guards.parse(f"{lookup} is {mvar}"), guards.parse(f"{mvar}.conn in self.modules"), guards.parse(f"{lookup} is not None")]
+    # a local that names the looked-up entry (`registered = self.modules.get(module.conn)`, assigned once) stands for the lookup
+    defs = {}
+    for n in walk_local(g.func):
+        if isinstance(n, ast.Assign) and len(n.targets) == 1 and isinstance(n.targets[0], ast.Name):
+            defs.setdefault(n.targets[0].id, []).append(n.value)
+    amap = {k: v[0] for k, v in defs.items() if len(v) == 1 and norm(v[0]) == lookup}
     for n in g.nodes:
         for e in g.succ[n.id]:
             if e.cond is None:
                 continue
+            cond = guards.subst(e.cond, amap) if amap else e.cond
             for lv in lives:
                 try:
-                    if guards.implies([(e.cond, e.pol)], ast.UnaryOp(op=ast.Not(), operand=lv)):
+                    if guards.implies([(cond, e.pol)], ast.UnaryOp(op=ast.Not(), operand=lv)):
                         out.add((e.src, e.dst, e.kind))
                 except AnalysisError:
                     pass
@@ -142,10 +160,12 @@ def snapshot_loop_sends(prog, ty, cg, mm, rm):
     the liveness of the addressed module is re-established in the same iteration before the send."""
     from ..program import ancestors
     out = []
-    for fn in ("forward_message", "send_to_loggers", "send_active_clients"):
-        f = mm.methods.get(fn)
-        if f is None:
-            raise AnalysisError(f"anchor vanished: MessageManager.{fn}")
+    if "forward_message" not in mm.methods:
+        raise AnalysisError("anchor vanished: MessageManager.forward_message")
+    # every method of the manager that writes to modules from inside a loop (forward_message, send_to_loggers,
+    # send_active_clients today; the logger fan-out may also be written out in send_ack)
+    hosts = [f for f in mm.methods.values() if any(isinstance(n, ast.For) for n in walk_local(f.node))]
+    for f in sorted(hosts, key=lambda f: f.node.lineno):
         g = C.build(f.node)
         gs = flow.guard_states(g)
         for lp in [n for n in walk_local(f.node) if isinstance(n, (ast.For,))]:
